@@ -258,6 +258,22 @@ func (ex *tcExec) stmt(s ast.Stmt, st tcState) []tcState {
 		if out, ok := ex.inline(s.X, st); ok {
 			return out
 		}
+		// func() { ... }(): a closure called in place is part of the function; a lock it takes with a deferred unlock is
+		// released when it returns
+		if c, ok := s.X.(*ast.CallExpr); ok && len(c.Args) == 0 {
+			if fl, ok := c.Fun.(*ast.FuncLit); ok {
+				deferred0 := st.deferred
+				out := ex.walk(fl.Body.List, st.clone())
+				for i := range out {
+					out[i].ret = false
+					if out[i].deferred && !deferred0 {
+						ex.emit(&out[i])
+						out[i].locked, out[i].deferred = false, false
+					}
+				}
+				return out
+			}
+		}
 		if ex.interesting(s, false) {
 			ex.op(&st, "TUnknown", s)
 		}
@@ -608,8 +624,22 @@ func genTermCtx(p *pkgInfo) string {
 			ex.emit(&e)
 		}
 		// goroutine and callback bodies inside the function must not touch the claim or the contexts
+		inPlace := map[*ast.FuncLit]bool{}
+		ast.Inspect(fd.Body, func(x ast.Node) bool {
+			if es, ok := x.(*ast.ExprStmt); ok {
+				if c, ok := es.X.(*ast.CallExpr); ok && len(c.Args) == 0 {
+					if fl, ok := c.Fun.(*ast.FuncLit); ok {
+						inPlace[fl] = true // executed as part of the function (see stmt)
+					}
+				}
+			}
+			return true
+		})
 		ast.Inspect(fd.Body, func(x ast.Node) bool {
 			if fl, ok := x.(*ast.FuncLit); ok {
+				if inPlace[fl] {
+					return true
+				}
 				if ex.interesting(fl.Body, false) {
 					ex.paths = append(ex.paths, tcPath{n, p.pos(fl), []string{"TUnknown"}})
 				}
